@@ -14,6 +14,9 @@ import (
 type Target struct {
 	Dst ivg.Destination
 	Enc *encode.Encoder
+	// Adjs is the Material Design converter's opacity -> ADJ map of this
+	// party's icon (the converter keeps one per icon across its paths).
+	Adjs map[float32]uint8
 }
 
 // StepResult is what a producer observes from one step.
@@ -71,6 +74,20 @@ func Apply(t Target, o *Op) (res StepResult) {
 			res.Err = err.Error()
 		}
 		t.Dst.ClosePathEndPath()
+	case KMDIcon:
+		adjs := t.Adjs
+		if adjs == nil {
+			adjs = map[float32]uint8{}
+		}
+		op := o.F[0]
+		path := &mdicons.Path{D: o.S, Opacity: &op}
+		var circles []mdicons.Circle
+		if o.F[3] != 0 {
+			circles = []mdicons.Circle{{Cx: o.F[1], Cy: o.F[2], R: o.F[3]}}
+		}
+		if err := mdicons.ParsePath(t.Dst, path, adjs, 48, f32.Vec2{0, 0}, 48, circles); err != nil {
+			res.Err = err.Error()
+		}
 	case KSetHiRes:
 		if t.Enc != nil {
 			t.Enc.HighResolutionCoordinates = o.Incr
